@@ -8,7 +8,7 @@
 (* increments `mism`; the driver turns MISMATCH lines into verdicts.       *)
 (* Traces of many worlds are concatenated ("World" events reset the state).*)
 (***************************************************************************)
-EXTENDS Obs, Laws, DiffRef, IngressRef, Json, IOUtils
+EXTENDS Obs, Laws, DiffRef, IngressRef, ExposureRef, Json, IOUtils
 
 TraceFile == IF "TRACE" \in DOMAIN IOEnv THEN IOEnv.TRACE ELSE "trace.ndjson"
 Trace == ndJsonDeserialize(TraceFile)
@@ -58,13 +58,20 @@ EdgeLawMismatches(obs) ==
        IN LawViolations(prevW, w, edit.label, edit.args, c1, c2)
   ELSE {}
 
+NoAdmin(ww) == Len(ww.anps) = 0 /\ ww.banp.nil
+
 TraceList == /\ IsEvent("List")
              /\ UNCHANGED <<w, wid, edit, prevW, prevL, fbase>>
              /\ LET ev == Trace[l]
                     plain == ~ev.opts.exposure /\ ev.opts.focus = "" /\ ~ev.opts.stop
+                    expo == ev.opts.exposure /\ ev.opts.focus = "" /\ ~ev.opts.stop
                 IN /\ obsL' = IF plain THEN ev.obs ELSE obsL
                    /\ Report(IF plain THEN ListMismatches(w, ev.obs) \cup EdgeLawMismatches(ev.obs)
                                             \cup (IF DistinctKeys(w) THEN IngressMismatches(w, ev.obs) ELSE {})
+                             ELSE IF expo /\ NoAdmin(w) /\ DistinctKeys(w)
+                             THEN BaseUntouchedMismatches(obsL, ev.obs)
+                                  \cup (IF ev.obs.outcome = "ok"
+                                        THEN SoundnessMismatches(w, ev.obs) \cup CompletenessMismatches(w, ev.obs) ELSE {})
                              ELSE {})
 
 TraceEval == /\ IsEvent("Eval")
